@@ -864,6 +864,13 @@ func (e *Engine) installNative() {
 	in["net/textproto.CanonicalMIMEHeaderKey"] = strFn(textproto.CanonicalMIMEHeaderKey)
 	in["net/http.CanonicalHeaderKey"] = strFn(http.CanonicalHeaderKey)
 	in["strings.ToLower"] = strFn(strings.ToLower)
+	in["strings.ReplaceAll"] = func(m *machine, caller *frame, fn *ssa.Function, args []value) value {
+		a, b, c := args[0].(strV), args[1].(strV), args[2].(strV)
+		if !a.IsConcrete() || !b.IsConcrete() || !c.IsConcrete() {
+			m.unsupported("strings.ReplaceAll on symbolic strings at %s", m.where())
+		}
+		return strV{s: strings.ReplaceAll(a.s, b.s, c.s)}
+	}
 	in["strings.ToUpper"] = strFn(strings.ToUpper)
 	in["net/http.StatusText"] = func(m *machine, _ *frame, _ *ssa.Function, args []value) value {
 		t := args[0].(*Term)
